@@ -1,22 +1,37 @@
-(** x/consensus/keeper/estimate.go:calculateFeesForEstimate — definitions only.
-    Multipliers are raw LegacyDec integers; [None] = the Go expression panics (LegacyDec range
-    assertion or Uint64() out of bounds), which is C09's concern. *)
-From Coq Require Import ZArith.
+(** x/consensus/keeper/estimate.go: calculateFeesForEstimate and its helper mulCeilUint64, and the
+    multiplicator validation of x/treasury/keeper/msg_server.go:UpsertRelayerFee — definitions only.
+    Multipliers are raw LegacyDec integers; [None] = the Go function returns an error (since the
+    C09 fix nothing here panics): only the affected message is skipped. *)
+From Coq Require Import ZArith Bool.
 From Paloma Require Import Base.Dec.
+From Paloma Require Gen.C14.
 Open Scope Z_scope.
+
+(** mulCeilUint64(d, n): reject a negative d; product = raw(d) * n on big.Int; QuoRem by 10^18
+    (truncated, the product is non-negative); +1 iff the remainder is positive; must fit uint64. *)
+Definition mul_ceil_u64 (d n : Z) : option Z :=
+  if d <? 0 then None
+  else let p := d * n in
+       let q := Z.quot p prec in
+       let r := Z.rem p prec in
+       to_uint64 (if 0 <? r then q + 1 else q).
 
 Record fee_triple := { fee_relayer : Z; fee_community : Z; fee_security : Z }.
 
 Definition fees_for (mult cf sf gas : Z) : option fee_triple :=
-  match mul_int_ceil_u64 mult gas with
+  match mul_ceil_u64 mult gas with
   | None => None
   | Some r =>
-    match mul_int_ceil_u64 cf r with
+    match mul_ceil_u64 cf r with
     | None => None
     | Some c =>
-      match mul_int_ceil_u64 sf r with
+      match mul_ceil_u64 sf r with
       | None => None
       | Some s => Some {| fee_relayer := r; fee_community := c; fee_security := s |}
       end
     end
   end.
+
+(** validateMultiplicator: accepted on submission iff 0 < m <= maxRelayerFeeMultiplicator. *)
+Definition max_multiplier : Z := of_int Gen.C14.max_relayer_fee_multiplicator.
+Definition valid_multiplier (m : Z) : bool := (0 <? m) && (m <=? max_multiplier).
